@@ -40,7 +40,7 @@ type build struct {
 }
 
 const (
-	baseValues = "# a comment that only the raw file keeps\nreplicas: 1\nname: base\nnested:\n  k: v\n  n: 1.50\n"
+	baseValues = "# a comment that only the raw file keeps\nreplicas: 1\nname: base\nnested:\n  k: v\n  num: 1.50\n"
 	baseTpl    = "apiVersion: v1\nkind: ConfigMap\nmetadata:\n  name: {{ .Release.Name }}-cm\ndata:\n  k: {{ .Values.name | quote }}\n"
 )
 
@@ -159,6 +159,9 @@ func mkTgz(top string, fs []file) []byte {
 type deviation struct {
 	ID    string
 	Apply func(b *build)
+	// Simpler lists deviations that do strictly less; minimisation tries them
+	// in place of this one.
+	Simpler []string
 }
 
 // ignore rule alphabet: short token (for ids and keys) and the rule line.
@@ -177,10 +180,10 @@ var ruleAlphabet = []struct{ Tok, Line string }{
 // must not. Every content is unique so that it can be searched for in an archive.
 var probeNames = []string{
 	"README.md", "sub/README.md", // rooted rule: only the first
-	"notes.txt", "sub/notes.txt", "templates/extra.txt", "naïve-世界.txt", "notes.txt.bak", "txt", // basename glob anywhere
-	"docs/a.md", "docs/deep/b.md", "sub/docs/c.md", "other/docs", "docs.md", // directory rule: directories named docs at any depth, not files
-	"abc", "axc", "sub/abc", "aéc", "ac", "abbc", "abc.d", "adc/inner.md", "templates/a-c", // ? = exactly one character; matches directories too
-	"sub/x.tmp", "sub/deep/y.tmp", "x.tmp", "other/sub/z.tmp", "sub/tmp", // structural rule: anchored at the root, * does not cross /
+	"notes.txt", "sub/notes.txt", "templates/extra.txt", "naïve-世界.txt", "notes.txt.bak", // basename glob anywhere
+	"docs/a.md", "sub/docs/c.md", "other/docs", // directory rule: directories named docs at any depth, not files
+	"abc", "sub/abc", "aéc", "ac", "abbc", "adc/inner.md", "templates/a-c", // ? = exactly one character; matches directories too
+	"sub/x.tmp", "sub/deep/y.tmp", "x.tmp", "other/sub/z.tmp", // structural rule: anchored at the root, * does not cross /
 }
 
 func probeFiles() []file {
@@ -261,7 +264,7 @@ const schemaJSON = "{\n  \"$schema\": \"http://json-schema.org/draft-07/schema#\
 
 func deviations() []deviation {
 	var ds []deviation
-	add := func(id string, f func(b *build)) { ds = append(ds, deviation{id, f}) }
+	add := func(id string, f func(b *build), simpler ...string) { ds = append(ds, deviation{id, f, simpler}) }
 
 	// apiVersion v1, alone and with its deprecated dependency files
 	v1 := func(b *build) { b.once("api"); b.api = "v1" }
@@ -270,8 +273,8 @@ func deviations() []deviation {
 		b.putAll("charts/depr/", subchart("depr", "0.5.0"))
 	}
 	add("v1", v1)
-	add("v1+req", func(b *build) { v1(b); req(b) })
-	add("v1+req+reqlock", func(b *build) { v1(b); req(b); b.puts("requirements.lock", reqLock) })
+	add("v1+req", func(b *build) { v1(b); req(b) }, "v1")
+	add("v1+req+reqlock", func(b *build) { v1(b); req(b); b.puts("requirements.lock", reqLock) }, "v1+req", "v1")
 	// the deprecated files next to whatever apiVersion the chart has
 	add("req", req)
 	add("reqlock", func(b *build) { b.puts("requirements.lock", reqLock) })
@@ -366,7 +369,9 @@ func deviations() []deviation {
 			i, j := i, j
 			id := "ign:" + ruleAlphabet[i].Tok
 			rules := []string{ruleAlphabet[i].Line}
+			var simpler []string
 			if j > i {
+				simpler = []string{id, "ign:" + ruleAlphabet[j].Tok}
 				id += "," + ruleAlphabet[j].Tok
 				rules = append(rules, ruleAlphabet[j].Line)
 			}
@@ -375,7 +380,7 @@ func deviations() []deviation {
 				b.hasIgnore = true
 				b.ignore = rules
 				b.putAll("", probeFiles())
-			})
+			}, simpler...)
 		}
 	}
 	return ds
